@@ -581,6 +581,16 @@ class LockAnalysis:
                 state[key] = v
                 state[src] = LockVal(v.mutex, v.mode, UNOWNED)
             return
+        if len(args) > 2:
+            r = self.eng.handle_ctor_lock(f, self, st, pos)
+            if r is None:
+                state[key] = LockVal(None, mode, MAYBE)
+                self.notes.append((f.loc(st), "handle built by a constructor the analysis cannot read"))
+            else:
+                state[key] = r[0]
+                if r[1] is not None:
+                    self.acquire_events.append((pos, key, r[0], r[1], st))
+            return
         if len(args) == 2:
             if is_mutex_type(ptypes[1]):
                 v = LockVal(path(f, args[1]), mode, HELD)
@@ -1007,6 +1017,12 @@ class Engine:
             lc = lock_class(t)
             if len(args) == 1 and (handle_class(ptypes[0]) or lock_class(ptypes[0])):
                 return self._summ_expr(g, la, args[0], pos, cond)
+            if hc and len(args) > 2:
+                r = self.handle_ctor_lock(g, la, e, pos)
+                if r is None:
+                    return None
+                lv, kind, data = r
+                return [dict(data=data, mutex=lv.mutex, mode=lv.mode, st=lv.st, blocking=(kind is True), cond=cond, site=g.loc(e))]
             if hc and len(args) == 2:
                 mode = self.handle_mode(t)
                 data = self._data_path(g, args[0])
@@ -1108,6 +1124,61 @@ class Engine:
                 return None
         a, b = self._data_path(g, g.s(init["then"])), self._data_path(g, g.s(init["else"]))
         return (b, a) if neg else (a, b)
+
+    def handle_ctor_lock(self, g, la, e, pos):
+        """what a handle constructor call does with the lock, read off the constructor's member initialisers (for
+        constructors other than the two the reference tree has: (pointer, mutex&) and (pointer, lock&&)):
+        (LockVal of the handle's lock member, acquisition kind True/'try'/'timed'/'adopt'/None, data argument) or None"""
+        h = self.fb.callee_fn(g, e, raw=True)
+        if h is None or h.kind != "ctor" or h.invalid or not h.inits:
+            return None
+        args = [g.s(x) for x in e["args"]]
+        pidx = {"p:" + pd["name"]: i for i, pd in enumerate(h.params)}
+        mode = self.handle_mode(e.get("t", ""))
+        lockv = None
+        kind = None
+        data = "?"
+        for ini in h.inits:
+            fld = ini.get("field")
+            ie = unwrap(h, h.s(ini.get("init")))
+            if ie is None or not fld:
+                continue
+            ft = ie.get("t", "")
+            if lock_class(ft) and ie["k"] in CTORS:
+                ia = [h.s(x) for x in ie["args"]]
+                ipt = ie["callee"].get("params", [])
+                if not ia:
+                    lockv = LockVal(None, mode, UNOWNED)
+                    continue
+                i0 = pidx.get(path(h, ia[0]))
+                if i0 is None or i0 >= len(args):
+                    return None
+                if len(ia) == 1 and lock_class(ipt[0] if ipt else ""):
+                    lockv = self._lock_value(g, la, args[i0], g.pos_of(e) or pos)
+                    if lockv is None:
+                        return None
+                    continue
+                mp = path(g, args[i0])
+                tag = strip_cvref(ipt[1]) if len(ipt) > 1 else ""
+                if len(ia) == 1:
+                    lockv, kind = LockVal(mp, mode, HELD), True
+                elif tag == "std::defer_lock_t":
+                    lockv = LockVal(mp, mode, UNOWNED)
+                elif tag == "std::adopt_lock_t":
+                    lockv, kind = LockVal(mp, mode, HELD), "adopt"
+                elif tag == "std::try_to_lock_t":
+                    lockv, kind = LockVal(mp, mode, MAYBE), "try"
+                elif "std::chrono::" in tag:
+                    lockv, kind = LockVal(mp, mode, MAYBE), "timed"
+                else:
+                    return None
+            elif ft.rstrip().endswith("*") or fld == "data":
+                j = pidx.get(path(h, ie))
+                if j is not None and j < len(args):
+                    data = self._data_path(g, args[j])
+        if lockv is None:
+            return None
+        return lockv, kind, data
 
     def _data_path(self, g, e):
         e2 = unwrap(g, e)
